@@ -28,6 +28,10 @@ RequestedHeaders(acrh) ==
 HeaderAllowed(cfg, h) ==
   \E i \in 1..Len(cfg.headers) : cfg.headers[i] = "*" \/ EqFold(cfg.headers[i], h)
 
+\* a second Access-Control-Request-Headers field line (optional field of logged requests).  Whether "the requested
+\* headers" are those of the first line or of all lines is left open: refusal is demanded for the first line,
+\* and nothing may be granted that is not allowed (C09Headers)
+Acrh2(req) == IF "acrh2" \in DOMAIN req THEN req.acrh2 ELSE ""
 IsPreflight(cfg, req) == req.m = "OPTIONS" /\ OriginAllowed(cfg, req.origin) /\ req.acrm # ""
 AllowedMethods(cfg, routable) == IF cfg.methods # <<>> THEN SeqToSet(cfg.methods) ELSE routable
 PreflightGranted(cfg, req, routable) ==
@@ -63,7 +67,10 @@ C09Grant(cfg, req, resp, routable) ==
   IsPreflight(cfg, req) /\ PreflightGranted(cfg, req, routable) /\ ~NoGrant(resp.ac) =>
      /\ Has(resp.ac, AM) /\ Len(resp.ac[AM]) = 1 /\ MethodList(resp.ac[AM][1]) \subseteq AllowedMethods(cfg, routable)
      /\ req.acrm \in MethodList(resp.ac[AM][1])
-     /\ Has(resp.ac, AH) /\ resp.ac[AH] = <<req.acrh>>
+     /\ Has(resp.ac, AH) /\ (Acrh2(req) = "" => resp.ac[AH] = <<req.acrh>>)
+\* whatever the request named (in one field line or several): every header name the response grants is allowed
+C09Headers(cfg, resp) ==
+  Has(resp.ac, AH) => \A i \in 1..Len(resp.ac[AH]) : \A h \in MethodList(resp.ac[AH][i]) : HeaderAllowed(cfg, h)
 C09Actual(cfg, req, resp, twinProj) ==
   OriginAllowed(cfg, req.origin) /\ ~IsPreflight(cfg, req) =>
      /\ resp.proj = twinProj                                   \* proceeds down the chain untouched
